@@ -151,10 +151,23 @@ pub fn read_back(stream: &[u8], lazy: bool) -> ReadBack {
     ReadBack { obs: format!("{};R={};{}", hdr_obs(&h), rs, end), header: Some(h), recs, end, panic }
 }
 
+/// NV.Bcf.FileLazyDomain.hdr_no_chars on the header read_header returns: no INFO Character array
+/// (Type=Character, Number neither 0 nor 1) and no FORMAT Character key (Number not 0); the
+/// reserved definitions hold no Character key.  `-` when the header block is rejected.
+fn no_chars_obs(h: &Option<vcf::Header>) -> &'static str {
+    use vcf::header::record::value::map::{format, info};
+    let Some(h) = h else { return "-" };
+    let ichar = h.infos().values().any(|m| {
+        m.ty() == info::Type::Character && !matches!(m.number(), info::Number::Count(0) | info::Number::Count(1))
+    });
+    let fchar = h.formats().values().any(|m| m.ty() == format::Type::Character && !matches!(m.number(), format::Number::Count(0)));
+    if ichar || fchar { "0" } else { "1" }
+}
+
 fn read_obs(stream: &[u8]) -> (String, ReadBack, ReadBack) {
     let e = read_back(stream, false);
     let l = read_back(stream, true);
-    (format!("E={}|L={}", e.obs, l.obs), e, l)
+    (format!("E={}|L={}|NC={};A=ok", e.obs, l.obs, no_chars_obs(&e.header)), e, l)
 }
 
 // the header arguments (as `vb`)
